@@ -63,7 +63,10 @@ class MLLPRequestHandler(StreamRequestHandler):
         self.eb = b"\x1c"
         self.cr = b"\x0d"
         self.validator = re.compile(
-            ''.join([self.sb.decode('ascii'), r"(([^\r]+\r)*([^\r]+\r?))", self.eb.decode('ascii'), self.cr.decode('ascii')]))
+            # segments separated by CR up to the end block; empty lines may occur (to_er7() of a message holding an
+            # empty group writes one), an empty payload is no message
+            ''.join([self.sb.decode('ascii'), r"((?=[^\x1c])([^\r\x1c]*\r)*([^\r\x1c]*))", self.eb.decode('ascii'),
+                     self.cr.decode('ascii')]))
         self.handlers = self.server.handlers
         self.timeout = self.server.timeout
 
